@@ -328,3 +328,14 @@ EXTRA6 = {
 }
 for _k, _v in EXTRA6.items():
     EXTRA[_k] = EXTRA.get(_k, "") + _v
+EXTRA7 = {
+    "C19": " Round h: every specialization reported to build_specialization_forest's closure becomes a graph edge on every path (never removed).",
+    "C09": " Round h: mark_floundered empties answers and strands besides setting the flag (field coverage).",
+    "C12": " Round h: no closure parameter / database-reaching function is called while a lock or RefCell guard over shared solver state is live.",
+    "C10": " Round h: a completed SCC head always promotes or rolls back; the integration solver query is re-created per revision (report_untracked_read on every path).",
+    "C20": " Round h: the orphan-check driver reaches its loop over all impls on every successful path; the loop drops nothing and is not left early.",
+    "C03": " Round h: a Complete-mode table with pending strands never reaches the cycle clean-up; it restarts.",
+    "C08": " Round h: the integration solver query is volatile (shared with C10).",
+}
+for _k, _v in EXTRA7.items():
+    EXTRA[_k] = EXTRA.get(_k, "") + _v
